@@ -148,7 +148,7 @@ Fixpoint zupd {A} (l : list A) (i : nat) (x : A) : list A :=
 Definition zset {A} (l : list A) (i : Z) (x : A) : list A := zupd l (Z.to_nat i) x.
 
 Definition has_prefix (p l : bytes) : bool := beq p (firstn (length p) l).
-Definition fake_prefix : bytes := [102; 97; 107; 101; 68; 105; 109].   (* "fakeDim" *)
+Definition fake_prefix : bytes := FAKE_PREFIX.   (* "fakeDim", from hdf_write_dim *)
 Fixpoint cstr (l : bytes) : bytes := match l with [] => [] | x :: r => if x =? 0 then [] else x :: cstr r end.
 Fixpoint zeros (n : nat) : bytes := match n with O => [] | S k => 0 :: zeros k end.
 (** first [n] bytes of a value copied into a zeroed buffer *)
